@@ -1,0 +1,136 @@
+// Copyright 2026 Juan Pablo Tosso and the OWASP Coraza contributors
+// SPDX-License-Identifier: Apache-2.0
+
+//go:build verif
+
+// Package verifapi exports internals to external runtime-verification
+// tooling. It only exists with the "verif" build tag.
+package verifapi
+
+import (
+	"io"
+
+	"github.com/corazawaf/coraza/v3"
+	"github.com/corazawaf/coraza/v3/experimental/plugins/plugintypes"
+	"github.com/corazawaf/coraza/v3/internal/actions"
+	"github.com/corazawaf/coraza/v3/internal/corazawaf"
+	"github.com/corazawaf/coraza/v3/internal/memoize"
+	"github.com/corazawaf/coraza/v3/internal/operators"
+	"github.com/corazawaf/coraza/v3/internal/seclang"
+	"github.com/corazawaf/coraza/v3/internal/transformations"
+	"github.com/corazawaf/coraza/v3/internal/variables"
+	"github.com/corazawaf/coraza/v3/internal/verifhook"
+	"github.com/corazawaf/coraza/v3/types"
+)
+
+// Re-exported hook API.
+type (
+	EventKind     = verifhook.EventKind
+	Sink          = verifhook.Sink
+	YieldFunc     = verifhook.YieldFunc
+	InjectedError = verifhook.InjectedError
+)
+
+const (
+	PhaseBegin      = verifhook.PhaseBegin
+	PhaseEnd        = verifhook.PhaseEnd
+	RuleEval        = verifhook.RuleEval
+	TCacheHit       = verifhook.TCacheHit
+	TCachePrefixHit = verifhook.TCachePrefixHit
+	TCacheMiss      = verifhook.TCacheMiss
+	PoolGet         = verifhook.PoolGet
+	PoolPut         = verifhook.PoolPut
+	MemoHit         = verifhook.MemoHit
+	MemoMiss        = verifhook.MemoMiss
+	MemoRelease     = verifhook.MemoRelease
+)
+
+func SetSink(s Sink)                { verifhook.SetSink(s) }
+func SetYield(f YieldFunc)          { verifhook.SetYield(f) }
+func ResetFaults(record bool)       { verifhook.ResetFaults(record) }
+func ArmFault(site string, occ int) { verifhook.ArmFault(site, occ) }
+func FaultCounts() map[string]int   { return verifhook.FaultCounts() }
+func FaultsFired() []string         { return verifhook.FaultsFired() }
+
+// Registries.
+func OperatorNames() []string       { return operators.VerifNames() }
+func TransformationNames() []string { return transformations.VerifNames() }
+func ActionNames() []string         { return actions.VerifNames() }
+func DirectiveNames() []string      { return seclang.VerifDirectiveNames() }
+func VariableNames() []string       { return variables.VerifNames() }
+
+func GetOperator(name string, opts plugintypes.OperatorOptions) (plugintypes.Operator, error) {
+	return operators.Get(name, opts)
+}
+
+func GetTransformation(name string) (plugintypes.Transformation, error) {
+	return transformations.GetTransformation(name)
+}
+
+// Rule dump.
+type (
+	Rule   = corazawaf.VerifRule
+	Target = corazawaf.VerifTarget
+	Action = corazawaf.VerifAction
+)
+
+func DumpRules(w coraza.WAF) []*Rule {
+	iw := coraza.VerifUnwrap(w)
+	if iw == nil {
+		return nil
+	}
+	return iw.VerifDumpRules()
+}
+
+// MemoizerID returns the WAF's owner id in the process-wide pattern cache.
+func MemoizerID(w coraza.WAF) uint64 {
+	iw := coraza.VerifUnwrap(w)
+	if iw == nil {
+		return 0
+	}
+	return iw.VerifMemoizerID()
+}
+
+// Pattern cache.
+type MemoEntry = memoize.VerifEntry
+
+const MemoizeCompiledIn = memoize.VerifCompiledIn
+
+func MemoizeSnapshot() []MemoEntry { return memoize.VerifSnapshot() }
+
+func NewMemoizer(owner uint64) plugintypes.Memoizer { return memoize.NewMemoizer(owner) }
+func MemoizeRelease(owner uint64)                   { memoize.Release(owner) }
+
+// Transaction internals.
+func TxState(tx types.Transaction) plugintypes.TransactionState {
+	if t, ok := tx.(*corazawaf.Transaction); ok {
+		return t
+	}
+	return nil
+}
+
+func SetCapturing(tx types.Transaction, on bool) {
+	if t, ok := tx.(*corazawaf.Transaction); ok {
+		t.VerifSetCapturing(on)
+	}
+}
+
+// DetectionOnlyInterruption returns the would-be interruption remembered in DetectionOnly mode.
+func DetectionOnlyInterruption(tx types.Transaction) *types.Interruption {
+	if t, ok := tx.(*corazawaf.Transaction); ok {
+		return t.DetectionOnlyInterruption()
+	}
+	return nil
+}
+
+// Body buffer in isolation.
+type BodyBuffer struct{ b *corazawaf.BodyBuffer }
+
+func NewBodyBuffer(o types.BodyBufferOptions) *BodyBuffer {
+	return &BodyBuffer{b: corazawaf.NewBodyBuffer(o)}
+}
+func (b *BodyBuffer) Write(p []byte) (int, error)        { return b.b.Write(p) }
+func (b *BodyBuffer) Reader() (io.Reader, error)         { return b.b.Reader() }
+func (b *BodyBuffer) WriteTo(w io.Writer) (int64, error) { return b.b.WriteTo(w) }
+func (b *BodyBuffer) Size() int64                        { return b.b.Size() }
+func (b *BodyBuffer) Reset() error                       { return b.b.Reset() }
